@@ -7,6 +7,7 @@
 //! application data readable both ways (safety, checked in `c02::run_script_ticks`), and — after the
 //! recovery rounds — both Connected (liveness).
 use super::c02::{Act, Rule, Script, run_script_ticks};
+use super::c03::refpeer::{RefFault, ref_session};
 use crate::{Args, Rng, Run};
 
 /// datagram kinds of a handshake: (from_client, kind) — kind as in `c02::kind`
@@ -19,6 +20,7 @@ fn faults_for(kind: u8) -> Vec<Act> {
         // tail of the first transmission
         v.push(Act::RefragTailLost(if kind == 11 { 100 } else { 9 }));
         v.push(Act::RefragEvery3(if kind == 11 { 77 } else { 5 }));
+        v.push(Act::RefragOverlap(if kind == 11 { 60 } else { 7 }));
     }
     match kind { 2 | 12 | 16 => { v.push(Act::Fragment(20)); v.push(Act::FragDupMid(15)); v.push(Act::FragReorder(15)); }
         11 => { v.push(Act::Fragment(100)); v.push(Act::Fragment(1)); v.push(Act::FragDupMid(90)); v.push(Act::FragReorder(90)); } 1 => { v.push(Act::Fragment(40)); v.push(Act::FragDupMid(20)); }, _ => {} }
@@ -46,6 +48,15 @@ pub fn run(args: &Args) {
     let rt = tokio::runtime::Builder::new_current_thread().enable_all().build().unwrap();
     const ROUNDS: u32 = 3;
     if let Some(case) = &args.replay {
+        if let Some(f) = case.strip_prefix("ref ") {
+            match rt.block_on(ref_session(RefFault::parse(f.trim()))) {
+                Some(o) => { println!("ops: {}\nimpl: {}", o.line.0, o.line.1);
+                    println!("client={} hvr_seen={} exporter_equal={:?} echo={:?} profile={:?}", o.client_final, o.hvr_seen, o.exporter_equal, o.echo_ok, o.profile); }
+                None => println!("inconclusive (timing)"),
+            }
+            return;
+        }
+        if case.trim() == "deadline" { super::c03::deadline::replay(); return; }
         let sc = Script::parse(case);
         match rt.block_on(run_script_ticks(&sc, ROUNDS)) {
             Some(o) => { for (i, l) in o.lines { println!("ops: {i}\nimpl: {l}"); } for t in o.tags { println!("tag {t}"); } for (s, d) in o.fails { println!("ORACLE-FAIL {s} {d}"); } }
@@ -54,6 +65,8 @@ pub fn run(args: &Args) {
         return;
     }
     let mut run = Run::new("c11", &args.out);
+    // run loops left alone until their handshake deadline (30 s of real time), concurrently with everything below
+    let deadline = super::c03::deadline::spawn_deadline_sessions();
     let mut rng = Rng::new(args.seed);
     let all = scripts(args.tier_thorough, &mut rng);
     // sessions wait for real retransmission timers (1 s each): run them concurrently in batches
@@ -86,6 +99,24 @@ pub fn run(args: &Args) {
         }
         for _ in pending { run.count("script_skipped_timing"); }
     }
+    // rustrtc client against the reference DTLS stack (webrtc-rs `dtls`): cookie exchange, key schedule, exporter
+    let reps = if args.tier_thorough { 12 } else { 2 };
+    for fault in [RefFault::None, RefFault::NoEms, RefFault::DupHvr, RefFault::DupHvrLate, RefFault::SwapFlight, RefFault::DupFlight, RefFault::SplitSwap, RefFault::SplitDup] {
+        for _ in 0..reps {
+            let text = format!("ref {}", fault.text());
+            let mut res = None;
+            for _ in 0..4 { res = rt.block_on(ref_session(fault.clone())); if res.is_some() { break; } run.count("ref_timing_retry"); }
+            let Some(o) = res else { run.count("ref_skipped_timing"); continue; };
+            run.case("hs", &o.line.0, &o.line.1, true);
+            run.count(&format!("ref:{}:client-{}", fault.text(), o.client_final));
+            if o.hvr_seen { run.count("ref_hello_verify_request_exchanged"); }
+            if o.client_final != 'C' { run.fail(&format!("conv:reference-server:not-connected:{}", fault.text()), &text, &format!("client ended {}", o.client_final)); }
+            if o.exporter_equal == Some(false) { run.fail("conv:reference-server:exporter-output-differs", &text, ""); }
+            if o.echo_ok == Some(false) { run.fail("conv:reference-server:application-data-not-echoed", &text, ""); }
+            if let (Some(a), Some(b)) = o.profile { if a != b { run.fail("conv:reference-server:srtp-profile-differs", &text, &format!("{a} vs {b}")); } }
+        }
+    }
     run.notes.insert("rounds".into(), serde_json::json!(ROUNDS));
+    super::c03::deadline::record(&mut run, deadline);
     run.finish();
 }
